@@ -341,6 +341,27 @@ func chainMods() []chainMod {
 		cp.selfSigned = true
 		return true
 	}))
+	// self-issued certificates inside the chain whose authority key identifier differs from their subject key identifier
+	add("self-signed-here-odd-aki", false, anyPos(func(cp *certPlan, pos, n int) bool {
+		if pos == n-1 {
+			return false
+		}
+		cp.selfSigned = true
+		cp.spec.AKI = []byte{0xde, 0xad, 0xbe, 0xef, 1, 2, 3, 4}
+		return true
+	}))
+	add("twin-of-next-odd-aki", false, anyPos(func(cp *certPlan, pos, n int) bool {
+		if pos == n-1 || pos == 0 {
+			return false
+		}
+		cp.twinOfNext = true
+		cp.spec.AKI = []byte{0xde, 0xad, 0xbe, 0xef, 5, 6, 7, 8}
+		return true
+	}))
+	add("root-odd-aki", true, func(p *chainPlan, pos int, purpose string) bool {
+		p.certs[len(p.certs)-1].spec.AKI = []byte{9, 9, 9, 9}
+		return pos == len(p.certs)-1
+	})
 	add("twin-of-next", false, anyPos(func(cp *certPlan, pos, n int) bool {
 		if pos == n-1 || pos == 0 {
 			return false
